@@ -141,6 +141,20 @@ def literal_values(t):
     return typing.get_args(t) if typing.get_origin(t) is typing.Literal else None
 
 
+def must_reject(vals, x) -> bool:
+    """x has to be rejected by a Literal with the given members: no member has x's class AND equals x.
+    Left open in favour of the code (DESIGN 6.3): a value that equals a member but whose class is the class of NO
+    member (Decimal('1') or an IntEnum member for Literal[1]); those are judged only where they make a union's
+    output non-wire."""
+    try:
+        if any(type(x) is type(a) and x == a for a in vals):
+            return False
+        eq_some = any(x == a for a in vals)
+    except Exception:                # noqa: BLE001
+        return True
+    return (not eq_some) or any(type(x) is type(a) for a in vals)
+
+
 def isvalid_leaf(t, x) -> bool:
     if t is typing.Any:
         return True
@@ -228,6 +242,8 @@ def c06_env(rng, gi):
     extra["EnS"] = ("enum", [("ONE", "'1'"), ("X", "'x'")], "str, enum.Enum")
     extra["EnA"] = defs.get("EnA") or ("enum", [("RED", "1"), ("BLUE", "2")])
     extra["LitQ"] = ("literal", ["1", "9", "'x'", "'a'"])
+    extra["LitM"] = ("literal", ["1", "False", "'a'", "2.5"])      # members of different, ==-related classes
+    extra["LitB"] = ("literal", ["'auto'", "0", "True"])
     if "Lit" in defs:
         extra["Lit"] = defs["Lit"]
     env["defs"] = {**extra, **{k: v for k, v in defs.items() if k not in extra}}
@@ -258,12 +274,20 @@ def adversarial_roots(rng, env, classes):
         ("tuple", "tuple[{}]", [L("int"), L("str"), L("date"), L("timedelta")]),
         ("map", "KDict", "dict[{}, {}]", L("EnI"), L("EnS")),
         ("seq", "KSet", "set[{}]", L("time")),
-        L("LitQ"), L("EnI"), L("EnS"),
+        L("LitQ"), L("EnI"), L("EnS"), L("LitM"), L("LitB"),
+        ("union", "Union", [L("LitM"), L("bool")]),
+        ("union", "Union", [L("LitM"), L("int"), L("float")]),
+        ("union", "Union", [L("LitB"), L("bool"), L("int")]),
+        ("map", "KDict", "dict[{}, {}]", L("str"), ("union", "Union", [L("LitB"), L("float"), L("bool")])),
+        ("union", "Union", [L("int"), L("str")]),
+        ("seq", "KList", "list[{}]", ("union", "|", [L("float"), L("str")])),
+        ("map", "KDict", "dict[{}, {}]", L("str"), ("union", "Union", [L("Decimal"), L("str")])),
+        ("tuple", "tuple[{}]", [("union", "Union", [L("int"), L("str")]), ("union", "Union", [L("date"), L("str")])]),
     ]
     for n in classes[:2]:
         roots.append(opt_first(("name", n)))
         roots.append(("seq", "KList", "list[{}]", ("union", "Union", [("none",), ("name", n), L("str")])))
-    k = rng.randint(8, 11)
+    k = rng.randint(10, 14)
     picked = rng.sample(roots, min(k, len(roots)))
     picked += [("name", n) for n in classes]
     picked += [coregen.gen_ty(rng, env, 2) for _ in range(2)]
@@ -407,6 +431,7 @@ class Group06(coremodel.Group):
         self.extra = []          # per case: (py_fa, py_valid, py_wire)
         self.valid_tbl = {}
         self.values = []         # per case: the input object
+        self.obs = []            # per case: the observation made alone, every cache cleared
 
     def add06(self, ri, v):
         obs = self.add("m", ri, v)
@@ -416,6 +441,7 @@ class Group06(coremodel.Group):
         wi = obs[0] == "ok" and why_not_wire(obs[1]) is None
         self.extra.append((fa, va, wi))
         self.values.append(v)
+        self.obs.append(obs)
         return obs, fa, va
 
     def emit06(self, name):
@@ -546,11 +572,7 @@ def sample_laws(run, groups):
                     counts["law_wire"] += 1
             vals = literal_values(t)
             if vals is not None:
-                try:
-                    loose = any(x == a for a in vals)
-                except Exception:        # noqa: BLE001
-                    loose = False
-                if not loose:
+                if must_reject(vals, x):
                     counts["law_literal"] += 1
                     if res != ("raise", "EValue"):
                         bad.append({"law": "law_literal", "leaf": name, "leaf_type": repr(t), "input": repr(x),
@@ -636,6 +658,17 @@ class EnA(enum.Enum):
 
 LitQ = typing.Literal[1, 9, 'x', 'a']
 LitN = typing.Literal[2, None]
+LitM = typing.Literal[1, False, 'a', 2.5]
+
+@dataclasses.dataclass
+class LitHolder:
+    mode: typing.Literal[1, False]
+
+@dataclasses.dataclass
+class Ov:
+    x: typing.Union[int, str]
+    ys: list[typing.Union[float, str]]
+    d: dict[str, typing.Union[Decimal, str]]
 
 @dataclasses.dataclass
 class Leaf:
@@ -709,12 +742,27 @@ POOL = [
     ("Row", "Row(1, None)"), ("Row", "Row(2, [Decimal('1.5')])"), ("TD", "TD(a=1, b=['x', 'y'])"),
     ("list[TD]", "[TD(a=1, b=[]), TD(a=2, b=['z'])]"), ("dict[str, Row]", "{'r': Row(1, [])}"),
     ("typing.Optional[list[typing.Optional[int]]]", "[1, None]"),
-    ("typing.Union[int, str]", "'a'"), ("typing.Union[str, int]", "5"), ("typing.Union[Decimal, datetime.date]", "datetime.date(2020, 1, 2)"),
+    ("typing.Union[int, str]", "'a'"), ("typing.Union[str, int]", "5"), ("typing.Union[int, str]", "'7'"),
+    ("list[typing.Union[float, str]]", "['1.5', 'n/a', '1.5']"), ("list[typing.Union[int, str]]", "['7', 'x', '7', 3]"),
+    ("dict[str, typing.Union[Decimal, str]]", "{'a': '1.5', 'b': 'n/a', 'c': '1.5', 'd': Decimal('2')}"),
+    ("Ov", "Ov('7', ['1.5', 'n/a', '1.5'], {'a': '1', 'b': 'x', 'c': '1'})"),
+    ("tuple[typing.Union[int, str], typing.Union[int, str], typing.Union[int, str]]", "('7', 'x', '7')"),
+    ("LitM", "1"), ("LitM", "False"), ("LitM", "2.5"), ("typing.Union[LitM, bool]", "True"), ("typing.Union[LitM, int, float]", "0"),
+    ("typing.Union[LitM, int, float]", "1.0"), ("list[typing.Union[LitM, bool]]", "[1, True, False, 'a']"), ("typing.Union[Decimal, datetime.date]", "datetime.date(2020, 1, 2)"),
     ("typing.Union[list[int], dict[str, int]]", "{'a': 1}"), ("typing.Union[list[int], tuple[str, ...]]", "('a', 'b')"),
 ]
 # Literal types and values that are not members under any reading (not == to a member)
 LITERAL_REJECTS = [("LitQ", "2"), ("LitQ", "'b'"), ("LitQ", "None"), ("LitQ", "Decimal('3')"), ("LitQ", "[1]"),
-                   ("LitN", "3"), ("LitN", "'None'"), ("LitN", "0"), ("typing.Literal['a']", "'A'"), ("typing.Literal[True]", "0")]
+                   ("LitN", "3"), ("LitN", "'None'"), ("LitN", "0"), ("typing.Literal['a']", "'A'"), ("typing.Literal[True]", "0"),
+                   # == to a member of one class, class of another member: (value, class) matches no member
+                   ("typing.Literal[1, False]", "True"), ("typing.Literal[1, False]", "0"),
+                   ("typing.Literal['auto', 0, True]", "False"), ("typing.Literal['auto', 0, True]", "1"),
+                   ("typing.Literal[1, 2.5]", "1.0"), ("typing.Literal[1, 2.5]", "2"), ("typing.Literal[0, 'a', 1.5]", "0.0"),
+                   ("typing.Literal[True, 0]", "False"), ("typing.Literal[True, 0]", "1"), ("typing.Literal[1.0, False]", "0.0"),
+                   ("LitM", "True"), ("LitM", "0"), ("LitM", "1.0"), ("LitM", "-0.0"),
+                   # nested: the non-member must not come out
+                   ("dict[str, typing.Literal[1, False]]", "{'k': True}"), ("list[typing.Literal['auto', 0, True]]", "['auto', 1]"),
+                   ("LitHolder", "LitHolder(True)"), ("tuple[typing.Literal[1, 2.5], int]", "(1.0, 3)")]
 
 
 def pool_ns():
@@ -791,6 +839,8 @@ def oracle_literals():
     fails, n = [], 0
     for tsrc, vsrc in LITERAL_REJECTS:
         t, v = eval(tsrc, ns), eval(vsrc, ns)
+        vals = literal_values(t)
+        assert vals is None or must_reject(vals, v), (tsrc, vsrc)
         impl.clear_caches()
         n += 1
         try:
@@ -804,6 +854,125 @@ def oracle_literals():
                           "symptom": "a non-member of a Literal type is rejected with another error than ValueError",
                           "detail": repr(e), "output": None})
     return fails, n
+
+
+# ---- "the same on every call": sequences of DIFFERENT values through one cached marshaller, no cache clearing ----
+SEQ_POOL = [
+    ("typing.Union[int, str]", ["'7'", "'x'", "'7'", "7", "'8'", "SS('9')"]),
+    ("typing.Union[float, str]", ["'1.5'", "'n/a'", "'1.5'", "2.5", "'inf'"]),
+    ("typing.Union[Decimal, str]", ["'1.5'", "'n/a'", "Decimal('2')", "'1.5'"]),
+    ("typing.Union[int, float, str]", ["'7'", "'7.5'", "'x'", "'7'", "7.5", "'7.5'"]),
+    ("typing.Optional[typing.Union[int, str]]", ["'7'", "None", "'x'", "'7'"]),
+    ("typing.Union[datetime.date, str]", ["'2020-01-02'", "'x'", "datetime.date(2020, 1, 2)", "'2020-01-02'"]),
+    ("typing.Union[bool, str]", ["'a'", "''", "True", "'a'"]),
+    ("list[typing.Union[float, str]]", ["['1.5', 'n/a', '1.5']", "['n/a']", "['1.5']", "['1.5', 'n/a', '1.5']"]),
+    ("dict[str, typing.Union[int, str]]", ["{'a': '7'}", "{'a': 'x', 'b': '7'}", "{'a': '7'}"]),
+    ("tuple[typing.Union[int, str], ...]", ["('7',)", "('x', '7')", "('7',)"]),
+    ("Ov", ["Ov('7', ['1.5'], {'a': '1'})", "Ov('x', ['n/a'], {'a': 'y'})", "Ov('7', ['1.5'], {'a': '1'})"]),
+    ("list[Ov]", ["[Ov('7', [], {})]", "[Ov('x', [], {}), Ov('7', [], {})]", "[Ov('7', [], {})]"]),
+    ("typing.Union[LitM, bool, str]", ["True", "'a'", "1", "'b'", "False", "True"]),
+]
+
+
+def observe_marshal(t, v):
+    from typelib import marshals
+    try:
+        with warnings.catch_warnings():
+            warnings.simplefilter("ignore")
+            return ("ok", marshals.marshal(v, t=t))
+    except RecursionError:
+        return ("raise", "ERecursion")
+    except Exception as e:            # noqa: BLE001
+        return ("raise", impl.exc_kind(e))
+
+
+def same_obs(a, b):
+    if a[0] != b[0]:
+        return False
+    return coreprop.same(a[1], b[1]) if a[0] == "ok" else a[1] == b[1]
+
+
+def run_sequence(t, makers, order, alone=None):
+    """alone[i] = the call made alone after clearing every cache; then ONE cold start and the calls of `order`
+    without clearing anything in between.  Returns (first deviating position, alone, got) or None."""
+    if alone is None:
+        alone = []
+        for mk in makers:
+            impl.clear_caches()
+            alone.append(observe_marshal(t, mk()))
+    impl.clear_caches()
+    for pos, i in enumerate(order):
+        got = observe_marshal(t, makers[i]())
+        if not same_obs(got, alone[i]):
+            return pos, alone[i], got
+    return None
+
+
+def orders_for(n, rng):
+    fwd = list(range(n))
+    sh = fwd[:]
+    rng.shuffle(sh)
+    return [fwd + fwd, fwd[::-1] + fwd, sh + sh[::-1]]
+
+
+def seq_failure(label, order, dev):
+    pos, want, got = dev
+    return dict(label, order=order[:pos + 1],
+                symptom="the result of a call depends on earlier calls through the same cached marshaller",
+                detail=f"call #{pos} (value index {order[pos]}): alone (caches cleared) {want!r}, in this sequence {got!r}",
+                output=repr(got))
+
+
+def oracle_sequences(seed):
+    ns = pool_ns()
+    rng = random.Random(seed)
+    fails, n = [], 0
+    for tsrc, vsrcs in SEQ_POOL:
+        t = eval(tsrc, ns)
+        makers = [lambda s=s: eval(s, ns) for s in vsrcs]
+        for order in orders_for(len(vsrcs), rng):
+            n += len(order)
+            dev = run_sequence(t, makers, order)
+            if dev:
+                fails.append(seq_failure({"kind": "sequence", "type": tsrc, "values": vsrcs}, order, dev))
+                break
+    return fails, n
+
+
+def oracle_generated_sequences(groups, seed):
+    """every root of every group: its generated values (inside the quantifier) one after the other through the one
+    cached marshaller, each compared with the observation made alone during the tie"""
+    rng = random.Random(seed)
+    fails, n = [], 0
+    for g in groups:
+        by_root = collections.defaultdict(list)
+        for i, c in enumerate(g.cases):
+            if g.extra[i][0] and g.extra[i][1]:
+                by_root[c[1]].append(i)
+        for ri, idx in by_root.items():
+            if len(idx) < 2:
+                continue
+            try:
+                blobs = [pickle.dumps(g.values[i]) for i in idx]
+            except Exception:        # noqa: BLE001
+                continue
+            # the very objects observed alone (a rebuilt set may iterate in another order); marshal does not modify
+            # its input (checked per case by check_statement)
+            makers = [lambda i=i: g.values[i] for i in idx]
+            alone = [g.obs[i] for i in idx]
+            order = list(range(len(idx)))
+            order = order + order[::-1]
+            n += len(order)
+            dev = run_sequence(g.pytys[ri], makers, order, alone)
+            if dev:
+                env = {k: x for k, x in g.env.items() if k != "wid"}
+                fails.append(seq_failure({"kind": "generated-seq", "type": repr(g.pytys[ri]),
+                                          "value": [repr(g.values[i])[:120] for i in idx],
+                                          "env": base64.b64encode(pickle.dumps((env, g.roots[ri]))).decode(),
+                                          "vals": [base64.b64encode(b).decode() for b in blobs],
+                                          "module_source": g.src}, order, dev))
+    return fails, n
+
 
 
 def pack(g, ri, v):
@@ -857,6 +1026,21 @@ def replay(payload):
         finally:
             LITERAL_REJECTS[:] = saved
         return {"fails": bool(f), "failures": f}
+    if kind == "sequence":
+        ns = pool_ns()
+        t = eval(payload["type"], ns)
+        makers = [lambda s=s: eval(s, ns) for s in payload["values"]]
+        dev = run_sequence(t, makers, payload["order"])
+        f = [seq_failure({"kind": "sequence", "type": payload["type"], "values": payload["values"]}, payload["order"], dev)] if dev else []
+        return {"fails": bool(f), "failures": f}
+    if kind == "generated-seq" and "env" in payload:
+        env, root = pickle.loads(base64.b64decode(payload["env"]))
+        mod, tys, _ = universe.materialise(env, [root])
+        blobs = [base64.b64decode(b) for b in payload["vals"]]
+        makers = [lambda b=b: pickle.loads(b) for b in blobs]
+        dev = run_sequence(tys[0], makers, payload["order"])
+        f = [seq_failure({"kind": "generated-seq", "type": payload["type"]}, payload["order"], dev)] if dev else []
+        return {"fails": bool(f), "failures": f}
     if kind == "generated" and "env" in payload:
         env, root = pickle.loads(base64.b64decode(payload["env"]))
         mod, tys, _ = universe.materialise(env, [root])
@@ -877,7 +1061,7 @@ def corpus_cases():
     return out
 
 
-POOL_CLASSES = ("Row", "Tree", "Leaf", "TD")
+POOL_CLASSES = ("Row", "Tree", "Leaf", "TD", "Ov", "LitHolder")
 
 
 def cause_of(f):
@@ -891,7 +1075,7 @@ def cause_of(f):
 
 
 def failure_key(f):
-    return json.dumps([f.get("kind"), f.get("symptom"), f.get("type"), f.get("value")], default=str)
+    return json.dumps([f.get("kind"), f.get("symptom"), f.get("type"), f.get("value"), f.get("values")], default=str)
 
 
 def search(run: lib.Run, broken):
@@ -911,6 +1095,9 @@ def search(run: lib.Run, broken):
     suspects = set(_STATE.get("mismatch", []))
     gf, ngen, graised, gappl = oracle_generated(groups)
     fails += gf
+    sf, nseq = oracle_sequences(run.seed + 61)
+    gsf, ngseq = oracle_generated_sequences(groups, run.seed + 62)
+    fails += sf + gsf
     nextra = 0
     if broken and not fails:
         # harder: a fresh, larger stream
@@ -926,7 +1113,7 @@ def search(run: lib.Run, broken):
     for f in fails:
         f["suspected_cause"] = cause_of(f)
         k = (f["symptom"], f.get("kind") == "literal", f["suspected_cause"])
-        size = (f.get("kind") not in ("pool", "literal"), any(c in str(f.get("type")) for c in POOL_CLASSES),
+        size = (f.get("kind") not in ("pool", "literal", "sequence"), any(c in str(f.get("type")) for c in POOL_CLASSES),
                 len(str(f.get("type"))) + len(str(f.get("value"))))
         if k not in best or size < best[k][0]:
             best[k] = (size, f)
@@ -940,7 +1127,8 @@ def search(run: lib.Run, broken):
                             "json-encodable, disjoint from the input's containers, repeatable, and leave the input unchanged")
     lawbad = _STATE.get("lawbad", [])
     run.search_stats["oracle"] = {
-        "evaluations": npool + nlit + ngen + nextra + ncorp,
+        "evaluations": npool + nlit + ngen + nextra + ncorp + nseq + ngseq,
+        "sequence_pool_calls": nseq, "generated_sequence_calls": ngseq,
         "distinct_nontrivial": npool + nlit + gappl,
         "pool_cases": npool, "pool_marshal_raised": praised, "literal_reject_cases": nlit,
         "generated_cases": ngen, "generated_in_quantifier": gappl, "generated_marshal_raised": graised,
@@ -948,7 +1136,9 @@ def search(run: lib.Run, broken):
         "leaf_law_violations": [{k: v for k, v in b.items() if k not in ("group", "x", "t")} for b in lawbad[:5]],
         "rule": "every (T, v) with T fully annotated and v valid: exact classes + primitive keys, json.dumps, id-disjoint "
                 "containers, input unchanged (deep copy), warm second call and cold call on an equal value give the same "
-                "result; Literal non-members (not == to any member) raise ValueError",
+                "result; every call of a sequence of different values through one cached marshaller (no cache clearing) equals "
+                "the same call made alone after clearing every cache; Literal non-members (no member of the value's class "
+                "equals it; values == a member but of no member's class are left open) raise ValueError, also when nested",
     }
     coreprop.close(groups)
     if out:
